@@ -164,7 +164,7 @@ class C03(Prop):
     id = 'C03'
 
     def configs(self, n):
-        caps = sorted(set([3, 4, 5, 7, max(3, n), n + 2, 64]))
+        caps = sorted(set([3, 4, 5, 7, max(3, n), max(3, n + 2), 64]))
         out = []
         for i, cap in enumerate(caps):
             rs = [[], ['D0'] * (n + 2), ['I', 'D1', 'I', 'I', 'D0'] * (n // 2 + 2)][i % 3]
@@ -234,6 +234,15 @@ class C03(Prop):
             ref = obs(rs[0])
             for r in rs[1:]:
                 o = obs(r)
+                if sets and any(x.startswith('err') for x in o + ref):
+                    # an invalid record ahead: set reads deliver only records preceding it, how many of them
+                    # depends on the batch boundaries (records sharing the invalid record's batch are not
+                    # delivered, DESIGN.md section 7); the error and the end signal must agree
+                    ra, rb = [x for x in o if x.startswith('rec') or x.startswith('h=')], [x for x in ref if x.startswith('rec') or x.startswith('h=')]
+                    ta, tb = [x for x in o if x not in ra], [x for x in ref if x not in rb]
+                    k = min(len(ra), len(rb))
+                    if ra[:k] == rb[:k] and ta == tb:
+                        continue
                 if o != ref:
                     k = next((i for i, (a, b) in enumerate(zip(ref, o)) if a != b), min(len(ref), len(o)))
                     bad.append(({'case': r['case'], 'impl': r['impl'], 'spec': r['spec'], 'model': r['model'],
@@ -263,6 +272,8 @@ def set_discipline(res):
         c = pl['op'][0]
         if c in 'SE' and pl['kind'] == 'set':
             slots[pl['op'][1]] = pl['out']
+        elif c in 'SE':
+            slots.pop(pl['op'][1], None)        # a failed / empty read may legitimately change (empty) the set
         elif c == 'I':
             s = pl['op'][1]
             if s in slots:
@@ -412,8 +423,8 @@ class C17(Prop):
                 toks, msg = oracles.split_err(pl['out'])
                 text = bytes.fromhex(msg)
                 kind = toks[1]
-                nums = {'fa_is': [toks[2]], 'fq_is': [toks[3]], 'fq_sep': [toks[3]], 'fq_len': toks[2:5],
-                        'fq_end': [toks[2]]}.get(kind, [])
+                nums = {'fa_is': toks[2:3], 'fq_is': toks[3:4], 'fq_sep': toks[3:4], 'fq_len': toks[2:5],
+                        'fq_end': toks[2:3]}.get(kind, [])
                 for x in nums:
                     if x.encode() not in text:
                         bad.append('op#%d message does not contain the value %s' % (i, x))
@@ -510,8 +521,454 @@ class C20(Prop):
         return 'all front/back step sequences of length <= n+2 for n <= %d sequence lines' % (4 if tier == 'quick' else 5)
 
 
+
+# ---------------------------------------------------------------------------
+# writers (C10, C11)
+
+def wr_fields(line):
+    d = {}
+    for tok in line.split(' ')[1:]:
+        if '=' in tok:
+            k, v = tok.split('=', 1)
+            d[k] = bytes.fromhex(v) if v else b''
+    return d
+
+
+def rnd_seq(rng, n):
+    return bytes(rng.choice(b'ACGTNacgt-*') for _ in range(n))
+
+
+def rnd_whead(rng):
+    h = gen.rnd_head(rng)
+    h = h.replace(b'\n', b'').replace(b'\r', b'')
+    if rng.chance(1, 6):
+        h += b' '                       # trailing space: empty description
+    if rng.chance(1, 10):
+        h = b' ' + h
+    return h
+
+
+def chunk_lens(rng, n):
+    k = rng.below(5)
+    if k == 0:
+        return []
+    out = []
+    left = n
+    for _ in range(rng.range(1, 6)):
+        c = rng.choice([0, 0, 1, 2, 3, left, rng.below(left + 1)])
+        c = min(c, left)
+        out.append(c)
+        left -= c
+    return out
+
+
+class C10(Prop):
+    id = 'C10'
+    fmts = ('wr',)
+
+    def accepts_case(self, line):
+        return line.startswith('wr ')
+
+    def cases(self, tier, rng):
+        out = []
+        n = 1500 if tier == 'quick' else 20000
+        for _ in range(n):
+            L = rng.choice([0, 1, 2, 3, 4, 5, 7, 8, 9, 12, 16, 17, 31, 32, 33])
+            w = rng.choice([1, 2, 3, 4, 4, 5, 8, 16, 60])
+            if rng.chance(1, 3):
+                L = w * rng.range(0, 4)                 # exact multiples of the width
+            seq = rnd_seq(rng, L)
+            out.append('wr %s %s %s %d %s' % (gen.hx(rnd_whead(rng)), gen.hx(seq), gen.hx(rnd_seq(rng, L)), w,
+                                              gen.lst([str(c) for c in chunk_lens(rng, L)])))
+        # exhaustive: short sequences x widths x all splits into <= 3 chunks (incl. empty ones)
+        maxl = 5 if tier == 'quick' else 7
+        for L in range(0, maxl + 1):
+            seq = bytes(b'ACGTACGT'[:L])
+            for w in range(1, 5):
+                for a in range(0, L + 1):
+                    for b in range(0, L - a + 1):
+                        out.append('wr 6964 %s %s %d %d,%d' % (gen.hx(seq), gen.hx(seq), w, a, b))
+        return out
+
+    def project(self, pl):
+        return pl['op'] + ' ' + pl['out']
+
+    def nontrivial(self, res):
+        return bool(res['impl']) and res['impl'][0].startswith('wr to=')
+
+    def oracle(self, res):
+        bad = []
+        if not res['impl'] or not res['impl'][0].startswith('wr to='):
+            return ['writer case did not produce output: %s' % (res['impl'][:1],)]
+        t = res['case'].split(' ')
+        seq = bytes.fromhex(t[2]) if t[2] != '-' else b''
+        w = int(t[4])
+        f = wr_fields(res['impl'][0])
+        # wrapped outputs: no sequence line longer than w, all but the last exactly w
+        for k in ('wr', 'oww'):
+            body = f[k].split(b'\n', 1)[1] if b'\n' in f[k] else b''
+            self.check_wrap(bad, k, body, w)
+        self.check_wrap(bad, 'ws', f['ws'], w)
+        self.check_wrap(bad, 'wi', f['wi'], w)
+        # chunking irrelevant for a non-empty sequence
+        if seq and f['wi'] != f['ws']:
+            bad.append('write_wrap_seq_iter over chunks differs from write_wrap_seq of the whole sequence')
+        return bad
+
+    @staticmethod
+    def check_wrap(bad, k, body, w):
+        lines = body.split(b'\n')
+        if lines and lines[-1] == b'':
+            lines = lines[:-1]
+        for i, l in enumerate(lines):
+            if len(l) > w:
+                bad.append('%s: sequence line longer than the wrap width %d' % (k, w))
+            elif i < len(lines) - 1 and len(l) != w:
+                bad.append('%s: line %d has length %d, width is %d and it is not the last line' % (k, i, len(l), w))
+
+    def cross(self, results):
+        """round trip: every written text parses back (with the real reader) to the header and sequence"""
+        reparse = []
+        want = []
+        for r in results:
+            if not r['impl'] or not r['impl'][0].startswith('wr to='):
+                continue
+            t = r['case'].split(' ')
+            head = bytes.fromhex(t[1]) if t[1] != '-' else b''
+            seq = bytes.fromhex(t[2]) if t[2] != '-' else b''
+            if head.endswith(b'\r') or b'>' in seq:
+                continue
+            f = wr_fields(r['impl'][0])
+            for k in ('to', 'pa', 'wr', 'ow', 'oww', 'hs'):
+                reparse.append(gen.mkcase('fa', 64, f[k], None, None, 'std', ['N', 'N']))
+                want.append((r, k, head, seq))
+            for k, body in (('si', f['si']), ('wi', f['wi']), ('ws', f['ws'])):
+                reparse.append(gen.mkcase('fa', 64, b'>' + head + b'\n' + body, None, None, 'std', ['N', 'N']))
+                want.append((r, k, head, seq))
+        bad = []
+        rs = vlib.run_cases(reparse, self.id + '_reparse', model=False)
+        for rr, (r, k, head, seq) in zip(rs, want):
+            ok = False
+            if len(rr['impl']) >= 2:
+                p0, p1 = parse_line(rr['impl'][0]), parse_line(rr['impl'][1])
+                if p0['kind'] == 'rec' and p1['kind'] == 'none':
+                    f = rec_fields(p0['out'])
+                    lines = b''.join(bytes.fromhex(x) for x in f['l'].split('/')[1:])
+                    ok = bytes.fromhex(f['h']) == head and lines == seq
+            if not ok:
+                bad.append(({'case': r['case'], 'impl': r['impl'], 'model': r['model'], 'spec': [], 'noshrink': True,
+                             'reparse_case': rr['case'], 'reparse_trace': rr['impl']},
+                            ['text written by entry point %s does not parse back to the header and sequence' % k]))
+        self.n_reparsed = len(rs)
+        return bad
+
+    def rule(self, tier):
+        return ('random headers (spaces, trailing space = empty description, non-UTF-8) x sequences of lengths around multiples of the '
+                'wrap width x widths 1..60 x chunkings with empty chunks, plus all splits of sequences up to length %d into three chunks '
+                'for widths 1..4; every writer entry point is run (write_to, write_parts, write_wrap, write_wrap_seq, write_seq_iter, '
+                'write_wrap_seq_iter, write_head+write_seq, write_id_desc, OwnedRecord::write/write_wrap) and compared with the model; '
+                'every output is parsed back with the real reader; non-trivial = the writers produced output' % (5 if tier == 'quick' else 7))
+
+    def exhaustive_part(self, tier):
+        return 'all splits into 3 chunks of sequences of length <= %d x widths 1..4' % (5 if tier == 'quick' else 7)
+
+
+class C11(Prop):
+    id = 'C11'
+
+    def accepts_case(self, line):
+        return line.split(' ')[0] in ('wr', 'fa', 'fq')
+
+    def cases(self, tier, rng):
+        out = []
+        n = 1200 if tier == 'quick' else 15000
+        for _ in range(n):
+            L = rng.choice([0, 1, 2, 3, 5, 8, 13])
+            out.append('wr %s %s %s 4 -' % (gen.hx(rnd_whead(rng)), gen.hx(rnd_seq(rng, L)), gen.hx(rnd_seq(rng, L))))
+        self.wellformed = {}
+        for _ in range(n):
+            f = rng.choice(['fq', 'fq', 'fa'])
+            cap = rng.choice([3, 5, 8, 13, 32, 64])
+            nrec = rng.range(1, 5)
+            crlf = rng.chance(1, 2)
+            t = b'\r\n' if crlf else b'\n'
+            text = b''
+            for _ in range(nrec):
+                h = rnd_whead(rng)
+                if h.endswith(b'\r'):
+                    h += b'x'
+                if f == 'fq':
+                    k = rng.choice([0, 1, 2, 4, 7])
+                    text += b'@' + h + t + rnd_seq(rng, k) + t + b'+' + t + rnd_seq(rng, k).replace(b'-', b'I') + t
+                else:
+                    text += b'>' + h + t
+                    for _ in range(rng.choice([0, 1, 1, 2, 3])):
+                        text += rnd_seq(rng, rng.choice([0, 1, 3, 6])).replace(b'*', b'A') + t
+                        if rng.chance(1, 8):
+                            text += t
+            final = rng.chance(2, 3)
+            if not final:
+                text = text[:-len(t)]
+            tail = b''
+            if f == 'fq' and final and rng.chance(1, 4):
+                tail = t * rng.range(1, 2)
+            c = gen.mkcase(f, cap, text + tail, gen.rnd_chunking(rng, len(text)), None, 'std', ['N'] * (nrec + 2))
+            self.wellformed[c] = (f, text, crlf, final)
+            out.append(c)
+        return out
+
+    def project(self, pl):
+        if pl['op'] == 'wr':
+            return 'wr ' + pl['out']
+        f = rec_fields(pl['out']) if pl['kind'] == 'rec' else {}
+        return '%s %s wu=%s w=%s' % (pl['op'], pl['kind'], f.get('wu'), f.get('w'))
+
+    def nontrivial(self, res):
+        return any((' rec ' in l) or l.startswith('wr to=') for l in res['impl'])
+
+    def oracle(self, res):
+        bad = abnormal(res)
+        info = getattr(self, 'wellformed', {}).get(res['case'])
+        if info:
+            f, text, crlf, final = info
+            recs = [rec_fields(parse_line(l)['out']) for l in res['impl'] if parse_line(l)['kind'] == 'rec']
+            wu = b''.join(bytes.fromhex(r['wu']) for r in recs)
+            t = b'\r\n' if crlf else b'\n'
+            if f == 'fq':
+                # FASTQ: unchanged writing reproduces the input (final terminator added, blank tail dropped)
+                want = text if final else text + b'\n'
+                if wu != want:
+                    bad.append('concatenated write_unchanged output differs from the input bytes')
+            else:
+                # FASTA: identical up to blank lines / final terminator
+                def norm(b):
+                    ls = [l for l in b.replace(b'\r\n', b'\n').split(b'\n') if l != b'']
+                    return ls
+                if norm(wu) != norm(text):
+                    bad.append('FASTA write_unchanged output differs from the input by more than blank lines / terminators')
+                if wu and not wu.endswith(b'\n'):
+                    bad.append('FASTA write_unchanged output lacks the final terminator')
+        return bad
+
+    def cross(self, results):
+        reparse, want = [], []
+        for r in results:
+            if r['case'].startswith('wr ') and r['impl'] and r['impl'][0].startswith('wr to='):
+                t = r['case'].split(' ')
+                head = bytes.fromhex(t[1]) if t[1] != '-' else b''
+                seq = bytes.fromhex(t[2]) if t[2] != '-' else b''
+                qual = bytes.fromhex(t[3]) if t[3] != '-' else b''
+                if head.endswith(b'\r'):
+                    continue
+                f = wr_fields(r['impl'][0])
+                for k in ('qto', 'qpa', 'qow'):
+                    reparse.append(gen.mkcase('fq', 64, f[k] + f[k], None, None, 'std', ['N', 'N', 'N']))
+                    want.append((r, k, (head, seq, qual), 'fq'))
+            elif r['case'].split(' ')[0] in ('fa', 'fq') and r['case'] in getattr(self, 'wellformed', {}):
+                fmt = r['case'].split(' ')[0]
+                recs = [rec_fields(parse_line(l)['out']) for l in r['impl'] if parse_line(l)['kind'] == 'rec']
+                if recs:
+                    wu = b''.join(bytes.fromhex(x['wu']) for x in recs)
+                    reparse.append(gen.mkcase(fmt, 64, wu, None, None, 'std', ['N'] * (len(recs) + 1)))
+                    want.append((r, 'write_unchanged', recs, 're'))
+        bad = []
+        rs = vlib.run_cases(reparse, self.id + '_reparse', model=False)
+        for rr, (r, k, exp, kind) in zip(rs, want):
+            got = [rec_fields(parse_line(l)['out']) for l in rr['impl'] if parse_line(l)['kind'] == 'rec']
+            ok = True
+            if kind == 'fq':
+                ok = len(got) == 2 and all((bytes.fromhex(g['h']), bytes.fromhex(g['s']), bytes.fromhex(g['q'])) == exp for g in got) \
+                    and parse_line(rr['impl'][-1])['kind'] == 'none'
+            else:
+                if rr['case'].startswith('fa'):
+                    # identical record = same header, same non-blank sequence lines (blank lines before the
+                    # next header are dropped by write_unchanged by design, DESIGN.md section 7)
+                    def key(g):
+                        return (g['h'], [x for x in g['l'].split('/')[1:] if x != ''])
+                else:
+                    def key(g):
+                        return (g['h'], g['s'], g['q'])
+                ok = [key(g) for g in got] == [key(g) for g in exp]
+            if not ok:
+                bad.append(({'case': r['case'], 'impl': r['impl'], 'model': r['model'], 'spec': r.get('spec', []), 'noshrink': True,
+                             'reparse_case': rr['case'], 'reparse_trace': rr['impl']},
+                            ['output of %s does not parse back to the same record(s)' % k]))
+        return bad
+
+    def rule(self, tier):
+        return ('(a) random header/sequence/quality triples written with write_to, write_parts and OwnedRecord::write, written twice '
+                'back to back and parsed back with the real reader; (b) well-formed FASTQ and FASTA files (LF or CRLF, with/without final '
+                'terminator, FASTQ blank tails, FASTA blank lines) read at capacities 3..64 with random chunking: the write_unchanged '
+                'outputs are concatenated and compared with the input bytes (FASTQ: equal up to the final terminator / blank tail; '
+                'FASTA: equal up to blank lines and final terminator) and parsed back; the written bytes are also compared with the model; '
+                'non-trivial = at least one record or writer output')
+
+
+class C12(Prop):
+    id = 'C12'
+
+    def cases(self, tier, rng):
+        out = []
+        self.group = {}
+        n = 700 if tier == 'quick' else 10000
+        gid = 0
+        for _ in range(n):
+            f = rng.choice(['fa', 'fq'])
+            gid += 1
+            nrec = rng.range(1, 4)
+            recs = []
+            lead = rng.below(3) if (f == 'fa' and rng.chance(1, 3)) else 0
+            lines = [b''] * lead
+            for _ in range(nrec):
+                h = rnd_whead(rng).replace(b'\r', b'')
+                if f == 'fq':
+                    k = rng.choice([0, 0, 1, 2, 4])
+                    lines += [b'@' + h, rnd_seq(rng, k), b'+', rnd_seq(rng, k).replace(b'-', b'I')]
+                else:
+                    lines.append(b'>' + h)
+                    for _ in range(rng.choice([0, 1, 2, 3])):
+                        lines.append(rnd_seq(rng, rng.choice([0, 1, 3, 5])).replace(b'*', b'A'))
+            variants = [('lf', [b'\n'] * len(lines)), ('crlf', [b'\r\n'] * len(lines))]
+            if f == 'fa':
+                variants.append(('mix', [rng.choice([b'\n', b'\r\n']) for _ in lines]))
+            for final in (True, False):
+                if not final and lines[-1] == b'':
+                    continue          # an empty last line without terminator does not exist in the text
+                for name, terms in variants:
+                    text = b''.join(l + t for l, t in zip(lines, terms))
+                    if not final:
+                        text = text[:-len(terms[-1])]
+                    for cap in (rng.choice([3, 4, 5, 7]), 64):
+                        c = gen.mkcase(f, cap, text, gen.rnd_chunking(rng, len(text)), None, 'std', ['N'] * (nrec + 2))
+                        self.group[c] = (gid, final, name)
+                        out.append(c)
+        return out
+
+    def project(self, pl):
+        return full_proj(pl)
+
+    def oracle(self, res):
+        bad = abnormal(res)
+        if res['case'] in getattr(self, 'group', {}):
+            for i, l in enumerate(res['impl']):
+                pl = parse_line(l)
+                if pl['kind'] == 'err':
+                    bad.append('op#%d error on a well-formed file: %s' % (i, pl['out'][:60]))
+                if pl['kind'] == 'rec':
+                    f = rec_fields(pl['out'])
+                    for k in ('h', 'l', 's', 'q'):
+                        if k in f and '0d' in [f[k].replace('/', '')[j:j + 2] for j in range(0, len(f[k].replace('/', '')), 2)]:
+                            bad.append('op#%d carriage return in returned field %s' % (i, k))
+        return bad
+
+    def cross(self, results):
+        groups = {}
+        for r in results:
+            g = getattr(self, 'group', {}).get(r['case'])
+            if g:
+                groups.setdefault(g[0], []).append(r)
+        bad = []
+        keys = ('h', 'l', 's', 'q')
+
+        def obs(r):
+            o = []
+            for l in r['impl']:
+                pl = parse_line(l)
+                if pl['kind'] == 'rec':
+                    f = rec_fields(pl['out'])
+                    o.append(('rec',) + tuple(f.get(k) for k in keys) + (pl['pos'].split(':')[0],))
+                else:
+                    o.append((pl['kind'],))
+            return o
+        for g, rs in groups.items():
+            ref = obs(rs[0])
+            for r in rs[1:]:
+                if obs(r) != ref:
+                    bad.append(({'case': r['case'], 'impl': r['impl'], 'spec': r['spec'], 'model': r['model'], 'noshrink': True,
+                                 'other_case': rs[0]['case'], 'other_impl': rs[0]['impl']},
+                                ['LF/CRLF/final-terminator renderings of the same file parse differently (records, fields or line numbers)']))
+                    break
+        return bad
+
+    def rule(self, tier):
+        return ('well-formed files are generated as line lists and rendered with LF, CRLF, (FASTA) a random per-line mixture, each with and '
+                'without a terminator after the last line, at a small and a large capacity with random chunking; all renderings of one file '
+                'must give the same records (header, sequence lines / sequence, quality), the same line numbers, no error, and no CR in any '
+                'field; model/implementation traces are compared as well; non-trivial = at least one spec item')
+
+
+class C19(Prop):
+    id = 'C19'
+
+    def hist(self, rng, text, f):
+        ops = []
+        for _ in range(rng.range(2, 6)):
+            k = rng.below(6)
+            if k == 0:
+                ops += ['Q']
+            elif k == 1:
+                ops += ['S%d' % rng.below(2)]
+            elif k == 2:
+                ops += ['E%d.%d' % (rng.below(2), rng.range(1, 4))]
+            elif k == 3:
+                ops += ['N']
+            else:
+                s = rng.below(2)
+                ops += [rng.choice(['S%d' % s, 'E%d.%d' % (s, rng.range(1, 3))]), 'Z%d' % s]
+        ops += ['Z0', 'Z1', 'Q']
+        return ops
+
+    def cases(self, tier, rng):
+        out = []
+        n = 2000 if tier == 'quick' else 30000
+        for f in self.fmts:
+            out += gen.structured(f, rng, n, malformed_share=8, ops_fn=lambda r, t: self.hist(r, t, f))
+            L = 4 if tier == 'quick' else 6
+            out += gen.exhaustive(f, L, ops_fn=lambda s: ['E0.2', 'Z0', 'E0.1', 'Z0', 'Q', 'S1', 'Z1'], chunks=[[]])
+        return out
+
+    def project(self, pl):
+        return full_proj(pl)
+
+    def oracle(self, res):
+        bad = abnormal(res)
+        slots = {}
+        for i, l in enumerate(res['impl']):
+            pl = parse_line(l)
+            c = pl['op'][0]
+            if c in 'SE' and pl['kind'] == 'set':
+                slots[pl['op'][1]] = pl['out']
+            elif c in 'SE' and pl['kind'] in ('err', 'none'):
+                slots.pop(pl['op'][1], None)
+            elif c == 'Z':
+                s = pl['op'][1]
+                if s in slots and pl['out'] != slots[s]:
+                    bad.append('op#%d deserialised record set iterates differently from the set that was serialised' % i)
+            if 'ser-owned-differs' in l:
+                bad.append('op#%d deserialised owned record differs' % i)
+        return bad + oracles.cursor_check(fmt_of(res['case']), self.strip_z(res), level='kind', check_pos=False)
+
+    @staticmethod
+    def strip_z(res):
+        r = dict(res)
+        r['impl'] = [l.replace('Q ', 'O ', 1) if l.startswith('Q ') else l for l in res['impl'] if not l.startswith('Z')]
+        return r
+
+    def nontrivial(self, res):
+        return any(l.startswith('Z') and ' set ' in l and not ' set 0 ' in l for l in res['impl']) or any(l.startswith('Q own') for l in res['impl'])
+
+    def rule(self, tier):
+        return ('random files x histories of next / record-set / exact-count reads in which sets are refilled (so they carry stale offsets) '
+                'and then serialised with serde_json, deserialised and iterated (op Z), owned records are serialised and deserialised (op Q); '
+                'the deserialised value must iterate over / equal the original; fixed history over all strings up to length %d; '
+                'non-trivial = a non-empty set or an owned record went through a round trip' % (4 if tier == 'quick' else 6))
+
+    def exhaustive_part(self, tier):
+        return 'one fixed history x all strings of length <= %d x capacities' % (4 if tier == 'quick' else 6)
+
+
 REG = {}
-for cls in (C01, C02, C03, C04, C05, C13, C17, C20):
+for cls in (C01, C02, C03, C04, C05, C10, C11, C12, C13, C17, C19, C20):
     REG[cls.id] = cls
 
 
